@@ -146,14 +146,15 @@ def finish(chk, prog, explanation, trusted_base, assumptions, seed=0, extra=None
     discharged = len([o for o in chk.obs if o["status"] == "discharged"])
     by_table = len([o for o in chk.obs if o["status"] == "discharged" and o["by"] == "table"])
     keys = {o["key"] for o in chk.obs}
-    samples = []
+    samples = [o for o in chk.obs if o["status"] == "known-finding"]  # every recorded finding that was seen, in full
     seen_rules = set()
     for o in chk.obs:  # one sample per rule first, then fill
         if o["rule"] not in seen_rules:
             seen_rules.add(o["rule"])
-            samples.append(o)
+            if o not in samples:
+                samples.append(o)
     for o in chk.obs:
-        if len(samples) >= 40:
+        if len(samples) >= 44:
             break
         if o not in samples:
             samples.append(o)
@@ -164,6 +165,7 @@ def finish(chk, prog, explanation, trusted_base, assumptions, seed=0, extra=None
         discharged_by_rule=discharged - by_table,
         discharged_by_table=by_table,
         known_findings=len(seen_known),
+        known_finding_keys=sorted(seen_known),
         undecided=[dict(rule=o["rule"], key=o["key"], detail=o["detail"][:300]) for o in undecided],
         evaluations=n,
         distinct_nontrivial=len(keys),
